@@ -1,0 +1,69 @@
+//! Verification doors: service channels (cfg(trusttunnel_verif) only)
+//!
+//! * `serve_reverse_proxy` - what `Core::on_new_tls_connection` does for a connection whose TLS
+//!   host selected the reverse-proxy channel: the real codec on an arbitrary byte stream, then
+//!   `reverse_proxy::listen` with the context of a real `Core`;
+//! * `http_select` - the per-request channel choice of `HttpDemux::select` as a plain string
+//!   (also for HTTP/3, which the harness cannot drive end to end).
+//!
+//! The ping and speedtest session handlers are reached through `verif::shutdown::serve_session`,
+//! per-request routing on the tunnel host through `verif::tunnel::serve_tunnel`.
+
+use crate::core::Core;
+use crate::verif::tunnel::{VIo, VProto};
+use crate::{http_demultiplexer, log_utils, net_utils, reverse_proxy, tls_demultiplexer};
+use std::io;
+use std::net::SocketAddr;
+use tokio::io::{AsyncRead, AsyncWrite};
+
+/// Serve one client connection on the reverse-proxy channel exactly as
+/// `Core::on_new_tls_connection` does after the TLS handshake. Returns when the session stops.
+pub async fn serve_reverse_proxy<IO>(
+    core: &Core,
+    proto: VProto,
+    io: IO,
+    peer: SocketAddr,
+    server_name: String,
+) -> io::Result<()>
+where
+    IO: 'static + AsyncRead + AsyncWrite + Unpin + Send,
+{
+    let context = core.verif_context();
+    let protocol = match proto {
+        VProto::Http1 => tls_demultiplexer::Protocol::Http1,
+        VProto::Http2 => tls_demultiplexer::Protocol::Http2,
+    };
+    let id = log_utils::IdChain::from(log_utils::IdItem::new(log_utils::CLIENT_ID_FMT, 0));
+    let codec = Core::verif_make_tcp_http_codec(
+        protocol,
+        context.settings.clone(),
+        VIo { inner: io, peer },
+        id.clone(),
+    )?;
+    reverse_proxy::listen(context, codec, server_name, id).await;
+    Ok(())
+}
+
+/// Listen protocol of a request handed to [`http_select`]
+#[derive(Debug, Clone, Copy, PartialEq, Eq)]
+pub enum VListenProto {
+    Http1,
+    Http2,
+    Http3,
+}
+
+/// `HttpDemux::select` with the settings of `core`: "ping" / "speedtest" / "reverse_proxy" / "tunnel"
+pub fn http_select(core: &Core, proto: VListenProto, request: http::Request<()>) -> &'static str {
+    let demux = http_demultiplexer::HttpDemux::new(core.verif_context().settings.clone());
+    let protocol = match proto {
+        VListenProto::Http1 => tls_demultiplexer::Protocol::Http1,
+        VListenProto::Http2 => tls_demultiplexer::Protocol::Http2,
+        VListenProto::Http3 => tls_demultiplexer::Protocol::Http3,
+    };
+    match demux.select(protocol, &request.into_parts().0) {
+        net_utils::Channel::Ping => "ping",
+        net_utils::Channel::Speedtest => "speedtest",
+        net_utils::Channel::ReverseProxy => "reverse_proxy",
+        net_utils::Channel::Tunnel => "tunnel",
+    }
+}
